@@ -128,6 +128,8 @@ type raceIn struct {
 	Mode string  `json:"mode"`
 	A    raceReq `json:"a"`    // runs atomically while B is parked
 	B    raceReq `json:"b"`    // parked at its Gate-th read of the mapping it names
+	Pre    *raceReq `json:"pre,omitempty"` // bridge replacement: a request that runs first (normally creating the bridge B will look up) ...
+	EndPre bool     `json:"end_pre"`       // ... and, while B is parked, the bridge registered under the tunnel id ENDS before A runs
 	Gate int     `json:"gate"` // n>0: B parks at its n-th storage read of the mapping it names; 0: at its ack write; -1: never (B entirely first)
 }
 type raceOut struct {
@@ -140,6 +142,7 @@ type raceOut struct {
 	Src       int      `json:"src"`      // 0 nobody, 1 A, 2 B
 	Tgt       int      `json:"tgt"`
 	Readers   []string `json:"readers"`  // which of A / B read bytes written into the tunnel by the other side
+	Ended     bool     `json:"ended"`     // a registered bridge was ended while B was parked
 	LegitTgt  bool     `json:"legit_tgt"` // a legitimate target of the bridge's mapping was attached afterwards for the byte test
 	PropOK    bool     `json:"prop_ok"`
 	PropMsg   string   `json:"prop_msg"`
@@ -239,6 +242,17 @@ func runRace(w *world, in raceIn) (out raceOut) {
 		body, _ := json.Marshal(s.req)
 		return w.send(s.c, &packet.TransferPacket{PacketType: packet.TunnelOpen, TunnelID: tunnelID, Payload: body})
 	}
+	var P *side
+	if in.Pre != nil {
+		P = prep(*in.Pre)
+		done := make(chan error, 1)
+		go func() { done <- send(P) }()
+		select {
+		case <-done:
+		case <-time.After(10 * time.Second):
+			panic("the preliminary request did not return within 10 s")
+		}
+	}
 	A, B := prep(in.A), prep(in.B)
 
 	// B runs until its Gate-th read of the mapping it names, or to completion
@@ -280,6 +294,20 @@ func runRace(w *world, in raceIn) (out raceOut) {
 	case <-time.After(10 * time.Second):
 		panic("request B neither parked nor returned within 10 s")
 	}
+	// bridge replacement: the bridge B looked up ends now (its lifecycle goroutine removes it from tunnelBridges)
+	if in.EndPre {
+		if ob := w.fx.Session.VerifBridge(tunnelID); ob != nil {
+			bounded(func() { ob.Close() })
+			dl := time.Now().Add(5 * time.Second)
+			for w.fx.Session.VerifBridge(tunnelID) != nil {
+				if time.Now().After(dl) {
+					panic("the closed bridge was not removed from tunnelBridges within 5 s")
+				}
+				time.Sleep(200 * time.Microsecond)
+			}
+			out.Ended = true
+		}
+	}
 	// A runs to completion (the gate is one-shot: A's own reads pass)
 	doneA := make(chan error, 1)
 	go func() { doneA <- send(A) }()
@@ -316,6 +344,9 @@ func runRace(w *world, in raceIn) (out raceOut) {
 		case interface{}(B.c.Stream):
 			return 2
 		}
+		if P != nil && st == interface{}(P.c.Stream) {
+			return 3
+		}
 		return 0
 	}
 	fail := func(class, msg string) {
@@ -324,7 +355,10 @@ func runRace(w *world, in raceIn) (out raceOut) {
 		}
 	}
 	sides := map[int]*side{1: A, 2: B}
-	label := map[int]string{1: "A", 2: "B"}
+	label := map[int]string{1: "A", 2: "B", 3: "PRE"}
+	if P != nil {
+		sides[3] = P
+	}
 	check := func(k int, how string) {
 		s := sides[k]
 		tm := nameOf[out.MidEnd]
